@@ -9,7 +9,7 @@
    repeated 10^5 - 10^6 times and samples the real call depth. *)
 EXTENDS Terms, Json
 
-CONSTANTS MaxSize, MaxCalls, Reps, Budget
+CONSTANTS MaxSize, MaxCalls, Reps, Budget, PrefixLen
 
 RECURSIVE HasFor(_), Size(_)
 ThunkTerms(f) == IF f.body.k = "ret" THEN {f.body.e} ELSE {f.body.a, f.body.b}
@@ -27,17 +27,17 @@ Rep(p, n) == IF n = 0 THEN <<>> ELSE p \o Rep(p, n - 1)
 Patterns == Tapes(3) \ {<<>>}
 LoopTerms == {t \in TermsUpTo(MaxSize, FALSE) : HasFor(t)}
 
-VARIABLES term, pat, g, w, calls, obs
-vars == <<term, pat, g, w, calls, obs>>
-Init == /\ term \in LoopTerms /\ pat \in Patterns
-        /\ w = W0(Rep(pat, Reps), Budget) /\ g = NewGen(term, w)
+VARIABLES term, pre, pat, g, w, calls, obs
+vars == <<term, pre, pat, g, w, calls, obs>>
+Init == /\ term \in LoopTerms /\ pat \in Patterns /\ pre \in Tapes(PrefixLen)
+        /\ w = W0(pre \o Rep(pat, Reps), Budget) /\ g = NewGen(term, w)
         /\ calls = 0 /\ obs = <<>>
 MoveNext ==
   /\ calls < MaxCalls /\ ~Panicked(w)
   /\ LET r == DoMoveNext(g, w) IN
      /\ g' = r.g /\ w' = r.w
      /\ obs' = Append(obs, [ok |-> r.ok, panic |-> r.w.panic, reads |-> Len(NewLog(w, r.w)), maxd |-> r.w.maxd])
-  /\ calls' = calls + 1 /\ UNCHANGED <<term, pat>>
+  /\ calls' = calls + 1 /\ UNCHANGED <<term, pre, pat>>
 Next == MoveNext
 Spec == Init /\ [][Next]_vars
 
@@ -45,5 +45,5 @@ Spec == Init /\ [][Next]_vars
 DepthBounded == w.maxd <= 6 * Size(term) + 6
 NoSpin == w.panic # "spin"
 Done == calls = MaxCalls \/ Panicked(w)
-Emit == Done => PrintT(ToJson([term |-> term, tape |-> pat, obs |-> obs, size |-> Size(term)]))
+Emit == Done => PrintT(ToJson([term |-> term, pre |-> pre, tape |-> pat, obs |-> obs, size |-> Size(term)]))
 =============================================================================
